@@ -612,12 +612,24 @@ def esc(tok):
     return out
 
 
+def esc_lenient(tok):
+    """a backslash escapes only a quote or a backslash: in front of any other character - or at the very end of the token / of the whole
+    string - it stands for itself and may be written unescaped (seeded C13-r14: `strchr("\"'\\", next)` also matches the terminating NUL,
+    so a command string ending in a backslash loses it and is read beyond its end)"""
+    out = []
+    for i, b in enumerate(tok):
+        if b in (34, 39) or (b == 92 and i + 1 < len(tok) and tok[i + 1] in (34, 39, 92)):
+            out.append(92)
+        out.append(b)
+    return out
+
+
 def render_tok(rnd, tok):
     bare_ok = tok and not any(b == 32 or 9 <= b <= 13 for b in tok)
     styles = ['dq', 'sq'] + (['bare', 'bare'] if bare_ok else [])
     st = rnd.choice(styles)
     if st == 'bare':
-        return esc(tok)
+        return esc_lenient(tok) if rnd.random() < 0.5 else esc(tok)
     q = 34 if st == 'dq' else 39
     if rnd.random() < 0.5:
         # inside a quoted token a quote of the OTHER kind is an ordinary character: it may stay unescaped ("it's here")
